@@ -26,17 +26,20 @@ structure RSrv where
   acl : List Access
 deriving DecidableEq, Repr
 
-/-- a started local admin `http.Server` -/
+/-- a local admin `http.Server`: identity, address, and the policy its handler enforces (`tight` =
+    origins restricted so that the address's own Host value is NOT allowed) -/
 structure LSrv where
   id : Nat
   addr : Nat
+  tight : Bool
 deriving DecidableEq, Repr
 
 /-- the admin part of one loaded config -/
 inductive LocalCfg where
   | absent                 -- no "admin" object: the default address (not observed by the protocol)
   | disabled               -- admin.disabled
-  | listen (addr : Nat)
+  | listen (addr : Nat) (tight : Bool)
+  | blocked                -- admin.listen names an address that cannot be bound (held by a foreign socket)
 deriving DecidableEq, Repr
 
 structure LoadCfg where
@@ -68,16 +71,27 @@ def stopR (live : List RSrv) (old : Option RSrv) : List RSrv :=
   | some o => live.filter (· ≠ o)
   | none => live
 
-/-- `replaceLocalAdminServer` -/
+/-- `replaceLocalAdminServer`.  When the listener cannot be bound the function returns the error
+    BEFORE it assigns `localAdminServer`, and the deferred stop is skipped (`err != nil`): nothing
+    changes, in particular the variable keeps pointing at the server that is really running. -/
 def replaceLocal (s : Life) (c : LoadCfg) : Life :=
   match c.loc with
   | .disabled => { s with liveLocal := stopL s.liveLocal s.localVar }
+  | .blocked => s
   | .absent =>
-    { s with next := s.next + 1, localVar := some ⟨s.next, defaultLocalAddr⟩,
-             liveLocal := stopL s.liveLocal s.localVar ++ [⟨s.next, defaultLocalAddr⟩] }
-  | .listen a =>
-    { s with next := s.next + 1, localVar := some ⟨s.next, a⟩,
-             liveLocal := stopL s.liveLocal s.localVar ++ [⟨s.next, a⟩] }
+    { s with next := s.next + 1, localVar := some ⟨s.next, defaultLocalAddr, false⟩,
+             liveLocal := stopL s.liveLocal s.localVar ++ [⟨s.next, defaultLocalAddr, false⟩] }
+  | .listen a t =>
+    { s with next := s.next + 1, localVar := some ⟨s.next, a, t⟩,
+             liveLocal := stopL s.liveLocal s.localVar ++ [⟨s.next, a, t⟩] }
+
+/-- the variant that assigns `localAdminServer` BEFORE binding the listener (the order
+    `replaceRemoteAdminServer` uses): after a failed bind the variable points at a server that
+    never started.  Kept for `local_assign_before_bind_fails`. -/
+def replaceLocalAssignFirst (s : Life) (c : LoadCfg) : Life :=
+  match c.loc with
+  | .blocked => { s with next := s.next + 1, localVar := some ⟨s.next, defaultLocalAddr, false⟩ }
+  | _ => replaceLocal s c
 
 /-- `replaceRemoteAdminServer`: the previous server is stopped on BOTH paths, because the `defer`
     is registered before the "remote administration not configured" return -/
@@ -88,8 +102,13 @@ def replaceRemote (s : Life) (c : LoadCfg) : Life :=
     { s with next := s.next + 1, remoteVar := some ⟨s.next, a, acl⟩,
              liveRemote := stopR s.liveRemote s.remoteVar ++ [⟨s.next, a, acl⟩] }
 
-/-- one `caddy.Load` -/
-def load (s : Life) (c : LoadCfg) : Life := replaceRemote (replaceLocal s c) c
+/-- one `caddy.Load`; a load whose local admin listener cannot be bound is rejected there and
+    then (`run` → `provisionContext` returns the error): the remote endpoint is not touched -/
+def load (s : Life) (c : LoadCfg) : Life :=
+  if c.loc = .blocked then replaceLocal s c else replaceRemote (replaceLocal s c) c
+
+def loadAssignFirst (s : Life) (c : LoadCfg) : Life :=
+  if c.loc = .blocked then replaceLocalAssignFirst s c else replaceRemote (replaceLocalAssignFirst s c) c
 
 /-- the state after a history of loads -/
 def afterHistory (hist : List LoadCfg) : Life := hist.foldl load Life.init
